@@ -297,22 +297,29 @@ impl Constant {
         if self.bits() != rhs.bits() {
             Err(Error::Sort)
         } else {
+            let msb = self.value() >> (self.bits - 1);
+            let all_one =
+                (BigUint::from_u64(1).unwrap() << self.bits) - BigUint::from_u64(1).unwrap();
+            // Shifting by the width or more leaves only copies of the sign bit.
+            let saturated = if msb.is_zero() {
+                BigUint::from_u64(0).unwrap()
+            } else {
+                all_one.clone()
+            };
             let r = rhs
                 .value
                 .to_usize()
+                .filter(|bits| *bits < self.bits)
                 .map(|bits| {
                     let value = self.value() >> bits;
-                    let msb = self.value() >> (self.bits - 1);
                     if msb.is_zero() {
                         value
                     } else {
-                        let all_one = (BigUint::from_u64(1).unwrap() << self.bits)
-                            - BigUint::from_u64(1).unwrap();
-                        let fill = all_one << (self.bits - bits);
+                        let fill = all_one.clone() << (self.bits - bits);
                         fill | value
                     }
                 })
-                .unwrap_or_else(|| BigUint::from_u64(0).unwrap());
+                .unwrap_or(saturated);
             Ok(Constant::new_big(r, self.bits))
         }
     }
